@@ -515,6 +515,61 @@ def run(ctx):
     n_hist = ctx.n(120, 800) if ctx.driver is not None else ctx.n(240, 1600)
     for k in range(n_hist):
         history_case(ctx, rng, k, hkinds[k % len(hkinds)])
+    # ---- the e2n / n2e laws at other ABSOLUTE scales (inside the quantifier: "every mesh with positive elements")
+    akinds = ['tet', 'shell:tri', 'hex', 'shell:quad', 'tet2', 'mixed-nopyr', 'prism', 'shell:mixed']
+    for k in range(ctx.n(64, 480) if ctx.driver is not None else ctx.n(128, 960)):
+        kind = akinds[k % len(akinds)]
+        s = K.ABS_SCALES[(k // len(akinds) + k % len(akinds)) % len(K.ABS_SCALES)]
+        m = K.scaled_mesh(gen_mesh(rng, kind), s)
+        ne = len(flat_elems(m))
+        ctx.count(f'absolute-scale:{kind}:2^{s.numerator.bit_length() - s.denominator.bit_length()}')
+        mj = G.to_json(m)
+        e2n_block(ctx, rng, m, mj, k, ne >= 2, stream='absolute-scale', wscale=s ** (2 if K.is_shell(m) else 3),
+                  incidence='explicit-full' if k % 4 == 3 else None)
+        width = rng.randint(1, 3)
+        fld, aff = gen_field(rng, len(m['nodes']), width, 'affine', [p for _, p in m['nodes']])
+        case = {'check': 'n2e', 'stream': 'absolute-scale', 'mesh': mj, 'field': field_json(fld), 'one_d': False,
+                'affine': [[[str(v) for v in r] for r in aff[0]], [str(v) for v in aff[1]]]}
+        fails, real, err = check_n2e(m, fld, aff, False)
+        ctx.case(('absolute-scale', 'n2e', k, width), nontrivial=ne >= 2)
+        ctx.count('n2e:' + (err.split(':')[0] if err else 'ok') + ':absolute-scale')
+        for sig, what, obs in fails:
+            ctx.fail(sig, what, case, obs)
+    # ---- stream `repeated-nodes`: degenerate elements that list a node twice (collapsed hex = wedge / pyramid, collapsed quad =
+    #      triangle), as structured mesh generators emit them; see ASSUMPTIONS
+    for k in range(ctx.n(32, 240) if ctx.driver is not None else ctx.n(64, 480)):
+        m = gen_degenerate(rng, k)
+        ne = len(flat_elems(m))
+        tm = true_metrics(m)
+        positive = tm is not None and all(v > 0 for v in tm.values())
+        ctx.count('repeated-nodes:' + m['kind'] + (':all-metrics-positive' if positive else ':some-metric-not-positive (implicit weights skipped)'))
+        combos = [('effective', 'none'), ('mean', 'false'), ('mean', 'explicit')] + ([('mean', 'implicit')] if positive else [])
+        e2n_block(ctx, rng, m, G.to_json(m), k, ne >= 2, stream='repeated-nodes', combos=combos, tie=False)
+
+
+def gen_degenerate(rng, k):
+    """hex / quad mesh in which a random non-empty subset of the elements is collapsed by repeating node ids:
+    hex -> wedge [0,1,2,2,4,5,6,6] or pyramid [0,1,2,3,4,4,4,4]; quad -> triangle [0,1,2,2] (the collapsed element no longer fills
+    its cell - irrelevant here: the laws of C14 involve incidence and element sizes only)"""
+    if k % 2 == 0:
+        m = G.gen_geometric(rng, kind='hex', max_cells=2)
+        t, pats = 'hex', [[0, 1, 2, 2, 4, 5, 6, 6], [0, 1, 2, 3, 4, 4, 4, 4], [0, 1, 1, 3, 4, 5, 5, 7]]
+    else:
+        m = K.gen_shell(rng, 'quad')
+        t, pats = 'quad', [[0, 1, 2, 2], [0, 0, 1, 2], [0, 1, 1, 3]]
+    rows = m['blocks'][t]
+    chosen = set(rng.sample(range(len(rows)), rng.randint(1, len(rows))))
+    new = []
+    for i, (e, c) in enumerate(rows):
+        if i in chosen:
+            pat = rng.choice(pats)
+            c = [c[j] for j in pat]
+        new.append((e, c))
+    m = dict(m)
+    m['blocks'] = {t: new}
+    m['kind'] = 'collapsed-' + t
+    m['n_unref'] = len(m['nodes']) - len({n for _, c in new for n in c})
+    return m
 
 
 def history_case(ctx, rng, k, kind):
